@@ -294,6 +294,10 @@ impl Cx {
     let mut claims = spec.claims_json(&Map::new());
     let mut must_reject: Vec<&'static str> = Vec::new();
     let mut may_reject = false; // latitude: duplicate present while the registered claim is absent
+    // ... but if such a set is accepted the duplicated value must not be silently dropped or replaced
+    let mut carried_exp: Option<Option<i64>> = None;
+    let mut carried_id: Option<String> = None;
+    let mut carried_sub: Option<String> = None;
     let mut desc: Vec<String> = Vec::new();
     let mut vc = claims["vc"].as_object().unwrap().clone();
     // decode idx in mixed radix for the exhaustive part; random beyond
@@ -341,6 +345,7 @@ impl Cx {
         desc.push("vc.expirationDate=equal".into());
         if !exp_present {
           may_reject = true;
+          carried_exp = Some(Some(base_t + 1000));
         }
       }
       2 => {
@@ -350,6 +355,7 @@ impl Cx {
           must_reject.push("expirationDate");
         } else {
           may_reject = true;
+          carried_exp = Some(Some(base_t + 999));
         }
       }
       _ => {}
@@ -366,6 +372,7 @@ impl Cx {
         desc.push("vc.id=equal".into());
         if !jti_present {
           may_reject = true;
+          carried_id = Some("https://example.edu/credentials/1".into());
         }
       }
       2 => {
@@ -375,6 +382,7 @@ impl Cx {
           must_reject.push("id");
         } else {
           may_reject = true;
+          carried_id = Some("https://example.edu/credentials/2".into());
         }
       }
       _ => {}
@@ -391,6 +399,7 @@ impl Cx {
         desc.push("vc.credentialSubject.id=equal".into());
         if !sub_present {
           may_reject = true;
+          carried_sub = Some("did:example:subject-t".into());
         }
       }
       2 => {
@@ -400,6 +409,7 @@ impl Cx {
           must_reject.push("credentialSubject.id");
         } else {
           may_reject = true;
+          carried_sub = Some("did:example:subject-other".into());
         }
       }
       _ => {}
@@ -473,6 +483,25 @@ impl Cx {
         if !(T_MIN..=T_MAX).contains(&t) || cred.expiration_date.map(|e| !(T_MIN..=T_MAX).contains(&e.to_unix())).unwrap_or(false) {
           self.viol("accepted-date-out-of-range", "accepted credential carries a date outside 0000-9999".into(), &case);
         }
+        // a duplicated value whose registered claim is absent may be refused, but not silently dropped
+        if must_reject.is_empty() {
+          if let Some(want) = &carried_exp {
+            if cred.expiration_date.map(|e| e.to_unix()) != *want {
+              self.viol("duplicate-without-registered-claim-silently-dropped:expirationDate", format!("accepted, but expiration is {:?} while vc.expirationDate says {:?}", cred.expiration_date, want), &case);
+            }
+          }
+          if let Some(want) = &carried_id {
+            if cred.id.as_ref().map(|u| u.to_string()).as_ref() != Some(want) {
+              self.viol("duplicate-without-registered-claim-silently-dropped:id", format!("accepted, but id is {:?} while vc.id says {}", cred.id, want), &case);
+            }
+          }
+          if let Some(want) = &carried_sub {
+            let got = cred.credential_subject.iter().next().and_then(|s| s.id.as_ref().map(|u| u.to_string()));
+            if got.as_ref() != Some(want) {
+              self.viol("duplicate-without-registered-claim-silently-dropped:credentialSubject.id", format!("accepted, but subject id is {:?} while vc.credentialSubject.id says {}", got, want), &case);
+            }
+          }
+        }
         if let Some(want) = expect_issuance {
           if must_reject.is_empty() && t != want {
             self.viol("issuance-date-source", format!("issuance date {} but nbf (else iat) says {}", t, want), &case);
@@ -494,6 +523,7 @@ impl Cx {
     vp.insert("verifiableCredential".into(), json!([]));
     let mut must_reject: Vec<&'static str> = Vec::new();
     let mut may_reject = false;
+    let mut carried_id: Option<String> = None;
     let mut desc: Vec<String> = Vec::new();
     let mut d = idx;
     let mut digit = |n: u64| {
@@ -512,6 +542,7 @@ impl Cx {
         desc.push("vp.id=equal".into());
         if !jti_present {
           may_reject = true;
+          carried_id = Some("https://example.edu/presentations/1".into());
         }
       }
       2 => {
@@ -521,6 +552,7 @@ impl Cx {
           must_reject.push("id");
         } else {
           may_reject = true;
+          carried_id = Some("https://example.edu/presentations/2".into());
         }
       }
       _ => {}
@@ -574,7 +606,20 @@ impl Cx {
     let vopts = JwtPresentationValidationOptions::new()
       .earliest_expiry_date(Timestamp::from_unix(T_MIN).unwrap())
       .latest_issuance_date(Timestamp::from_unix(T_MAX).unwrap());
-    let r = catch(|| JwtPresentationValidator::with_signature_verifier(liar()).validate::<_, Jwt, Object>(&Jwt::new(token), &doc, &vopts).is_ok());
+    let r = catch(|| {
+      JwtPresentationValidator::with_signature_verifier(liar())
+        .validate::<_, Jwt, Object>(&Jwt::new(token), &doc, &vopts)
+        .ok()
+        .map(|d| d.presentation.id.map(|u| u.to_string()))
+    });
+    let r = r.map(|o| {
+      if let (Some(got), Some(want), true) = (&o, &carried_id, must_reject.is_empty()) {
+        if got.as_ref() != Some(want) {
+          self.viol("duplicate-without-registered-claim-silently-dropped:vp.id", format!("accepted, but presentation id is {:?} while vp.id says {}", got, want), &case);
+        }
+      }
+      o.is_some()
+    });
     match r {
       Err(p) => self.viol(&format!("presentation-validate-panic@{}", p.file_only()), format!("{} at {}", p.msg, p.loc()), &case),
       Ok(false) => {
